@@ -162,6 +162,15 @@ def make_queries(rng, root):
                     t5 = list(texts)
                     t5[j] = d.name + "='" + 'q\\z' + c.title.replace('\\', '\\\\').replace("'", "\\'") + "'"
                     B.append(('bad-escape', '|'.join(t5)))
+                    # a backslash in front of an ordinary character of the real title: not one of the two escapes, so malformed -
+                    # and dropping the backslash would address the existing section
+                    esc = lambda x: x.replace('\\', '\\\\').replace("'", "\\'")
+                    ks = [i for i, ch in enumerate(c.title) if ch not in "'\\"]
+                    if ks:
+                        i = rng.choice(ks)
+                        t9 = list(texts)
+                        t9[j] = d.name + "='" + esc(c.title[:i]) + '\\' + c.title[i] + esc(c.title[i + 1:]) + "'"
+                        B.append(('stray-backslash-in-title', '|'.join(t9)))
                     t6 = list(texts)
                     t6[j] = d.name + '='
                     B.append(('empty-qualifier', '|'.join(t6)))
